@@ -859,7 +859,7 @@ def rule_bottomup(ctx):
         w = _every_item_examined(ctx, es, some_e, vts, {x.bb for x in nx}) if some_e else 'the loop over the requirers was not found'
         R.ob('BU-S2-every-requirer', key, w is None, 'every requirer of the executed task is checked against the new output (only a currently executing / already queued task may be skipped)' if w is None
              else 'a requirer of the executed task can be skipped without its dependency being checked against the new output (a task made consistent earlier in the session is not exempt):\n%s' % w,
-             ctx.where(es, reqs[0][0].bb), props=('C03',))
+             ctx.where(es, reqs[0][0].bb), props=('C03', 'C09'))  # C09: an inconsistent require dependency always re-executes its owner
     # S4 polarity: schedule on the false edge, not on the true edge
     vg = verdict_guards(ctx, es, vts)
     adds = _queue_adds(ctx, es, q_add)
